@@ -64,6 +64,42 @@ def generate(rng: Rng, n, tier="quick"):
                 case["id"] = "%s-edge%05d%s" % (ID, k, "s" if strict else "")
                 out.append((case, {"npart": 0}))
             k += 1
+    # EXHAUSTIVE: the log helper with every spelling of its `level` option – each level name of the `log` crate in three cases, the
+    # filter-only name `off`, unknown names, the empty string, non-strings, a missing path – at top level, in a block, in a partial
+    lv = 0
+    for name in ["error", "warn", "info", "debug", "trace", "off", "max", "none", "loud", "", " info", "0", "5"]:
+        for sp in sorted({name, name.upper(), name.capitalize()}):
+            for lit in ('"%s"' % sp, "lv"):
+                src = "a{{log x y level=%s}}b{{#each l}}{{log this level=%s}}{{/each}}c{{> p}}d" % (lit, lit)
+                for strict in (False, True):
+                    case = session({"strict": strict, "escape": "html", "helpers": std_helpers()},
+                                   [("p", "{{log \"in partial\" level=%s}}" % lit), ("main", src)], {"api": "render", "name": "main"},
+                                   {"x": 1, "y": "s", "l": [1], "lv": sp})
+                    case["ops"].append({"op": "reg_string", "reg": 0, "name": "after", "src": "ok:{{{n}}}"})
+                    case["ops"].append({"op": "render", "reg": 0, "api": "render", "name": "after", "data": enc({"n": 7})})
+                    case["id"] = "%s-log%04d" % (ID, lv)
+                    lv += 1
+                    out.append((case, {"npart": 1}))
+    # … and log records of every length around the sizes a bounded buffer might have, made of multi-byte characters (a cut at
+    # a byte offset must not land inside a character)
+    for nch in (30, 63, 64, 100, 127, 128, 129, 200, 255, 256, 257, 341, 342, 512, 1000, 4096):
+        for ch in ("\u00e9", "\u4e2d", "\U0001F600"):
+            src = "a{{log s}}b{{log s s level=\"warn\"}}c{{log \"x\" o}}d"
+            case = session({"strict": False, "escape": "html", "helpers": std_helpers()}, [("main", src)], {"api": "render", "name": "main"},
+                           {"s": ch * nch, "o": {"k": [ch * nch]}})
+            case["ops"].append({"op": "reg_string", "reg": 0, "name": "after", "src": "ok:{{{n}}}"})
+            case["ops"].append({"op": "render", "reg": 0, "api": "render", "name": "after", "data": enc({"n": 7})})
+            case["id"] = "%s-log%04d" % (ID, lv)
+            lv += 1
+            out.append((case, {"npart": 0}))
+    for lit in ("1", "null", "true", "[1]", "nope", "(eq 1 1)"):
+        case = session({"strict": False, "escape": "html", "helpers": std_helpers()}, [("main", "a{{log x level=%s}}b" % lit)],
+                       {"api": "render", "name": "main"}, {"x": 1})
+        case["ops"].append({"op": "reg_string", "reg": 0, "name": "after", "src": "ok:{{{n}}}"})
+        case["ops"].append({"op": "render", "reg": 0, "api": "render", "name": "after", "data": enc({"n": 7})})
+        case["id"] = "%s-log%04d" % (ID, lv)
+        lv += 1
+        out.append((case, {"npart": 0}))
     for i in range(n):
         c, m = gen_case(rng.fork(i), i)
         c["id"] = "%s-%06d" % (ID, i)
